@@ -905,6 +905,9 @@ func (r *tsspFileReader) LoadComponents() error {
 	hitRatioStat.AddFileOpenTotal(1)
 	r.openMu.Lock()
 	defer r.openMu.Unlock()
+	if r.initialized() {
+		return nil
+	}
 
 	if !r.r.IsOpen() {
 		if err := r.loadDiskFileReader(); err != nil {
